@@ -15615,7 +15615,8 @@ func (t *TunnelEncapTLV) DecodeFromBytes(data []byte) error {
 		return NewMessageError(BGP_ERROR_UPDATE_MESSAGE_ERROR, BGP_ERROR_SUB_MALFORMED_ATTRIBUTE_LIST, nil, "Not all TunnelEncapTLV bytes available")
 	}
 	value := data[:t.Length]
-	for len(value) > 2 {
+	// a sub-TLV with an empty value is two octets long (type, length)
+	for len(value) >= 2 {
 		subType := EncapSubTLVType(value[0])
 		var subTlv TunnelEncapSubTLVInterface
 		switch subType {
@@ -15707,7 +15708,8 @@ func (p *PathAttributeTunnelEncap) DecodeFromBytes(data []byte, options ...*Mars
 	if err != nil {
 		return err
 	}
-	for len(value) > 4 {
+	// a TLV without sub-TLVs is four octets long (type, length)
+	for len(value) >= 4 {
 		tlv := &TunnelEncapTLV{}
 		err = tlv.DecodeFromBytes(value)
 		if err != nil {
